@@ -390,3 +390,73 @@ Proof.
        pose proof (u16_widx x Ux); change (N.to_nat bmp_words) with 1024%nat; decide_cmp;
        unfold convert; fold buf'; cbv beta iota zeta; rewrite fold_left_app; reflexivity.
 Qed.
+
+(* ================================================================== BitmapIter.Next (bits.go): the nested scan loops *)
+(* where an exhausted iterator stops: i = len(set) (or where it was, beyond), j = 0 (or the advanced j), read = false *)
+Definition end_iter (set : list N) (it : iter) : iter :=
+  {| wi := Nat.max (wi it) (length set);
+     bj := if (wi it <? length set)%nat then 0%N else (if rd it then (bj it + 1)%N else bj it);
+     rd := false |}.
+
+Ltac inner_iter :=
+  let j := fresh "j" in
+  intros j; open_iter; change 64 with (Z.of_N 64); rewrite ltb_of_N;
+  destruct (N.ltb_spec j 64); cbv beta iota zeta delta [bind]; [|reflexivity];
+  go; unfold m_shl; dec_Z; cbv beta iota zeta delta [bind]; rewrite mask_Z by lia; go; unfold mask;
+  repeat (break1; go); finish.
+(* one round of the outer loop: the inner loop over the word set[i] (= scan_bits), then i++, j = 0 *)
+Ltac outer_iter set :=
+  let i := fresh "i" in let j := fresh "j" in let Hi := fresh "Hi" in
+  intros i j; open_iter; go;
+  destruct (Nat.ltb_spec i (length set)) as [Hi|Hi]; cbv beta iota zeta delta [bind]; [|reflexivity];
+  match goal with |- context [while ?f ?c ?b ?p ?s] =>
+    let Hit := fresh "Hit" in let E := fresh "E" in let mki := fresh "mki" in let hiti := fresh "hiti" in
+    pose (mki := fun jj : N => mkBitmapIter (mkBitmap (zl set)) (Z.of_nat i) (Z.of_N jj) false);
+    pose (hiti := fun jj : N => (mkBitmapIter (mkBitmap (zl set)) (Z.of_nat i) (Z.of_N jj) true, true));
+    assert (Hit : forall jj, iter1 c b p (mki jj) =
+              if (jj <? 64)%N
+              then (if negb (N.land (nth i set 0%N) (N.shiftl 1 jj) =? 0)%N then Ret (inr (inr (hiti jj))) else Ret (inl (mki (jj + 1)%N)))
+              else Ret (inr (inl (mki jj)))) by (subst mki hiti; inner_iter);
+    assert (E := inner_while mki hiti c b p (nth i set 0%N) Hit 64%nat j f ltac:(lia) ltac:(lia));
+    match type of E with _ = ?rhs => replace (while f c b p s) with rhs by (symmetry; exact E) end;
+    subst mki hiti; clear Hit E
+  end;
+  change (scan_bits 65) with (scan_bits (S 64));
+  destruct (scan_bits (S 64) (nth i set 0%N) j); cbv beta iota; [reflexivity|];
+  replace (Z.of_nat i + 1) with (Z.of_nat (S i)) by lia; reflexivity.
+Ltac outer_shape set i0 j0 :=
+  match goal with |- context [while ?f ?c ?b ?p ?s] =>
+    let Hit := fresh "Hit" in let E := fresh "E" in let mko := fresh "mko" in let hito := fresh "hito" in
+    pose (mko := fun (ii : nat) (jj : N) => mkBitmapIter (mkBitmap (zl set)) (Z.of_nat ii) (Z.of_N jj) false);
+    pose (hito := fun (ii : nat) (jj : N) => (mkBitmapIter (mkBitmap (zl set)) (Z.of_nat ii) (Z.of_N jj) true, true));
+    assert (Hit : forall ii jj, iter1 c b p (mko ii jj) =
+              if (ii <? length set)%nat
+              then match scan_bits 65 (nth ii set 0%N) jj with
+                   | Some j' => Ret (inr (inr (hito ii j'))) | None => Ret (inl (mko (S ii) 0%N)) end
+              else Ret (inr (inl (mko ii jj)))) by (subst mko hito; outer_iter set);
+    assert (E := outer_while mko hito c b p set Hit (length set - i0)%nat i0 j0 f ltac:(lia) ltac:(lia));
+    match type of E with _ = ?rhs => replace (while f c b p s) with rhs by (symmetry; exact E) end;
+    subst mko hito; clear Hit E
+  end.
+
+Theorem code_BitmapIter_Next : forall fuel set it, (65 < fuel)%nat -> (length set - wi it < fuel)%nat ->
+  g_BitmapIter_Next fuel (of_iter set it) =
+  Ret (match bnext set it with Some it' => (of_iter set it', true) | None => (of_iter set (end_iter set it), false) end).
+Proof.
+  intros fuel set [i j r] Hf1 Hf2. cbn [wi] in Hf2. open_code. unfold bnext, end_iter. cbn [wi bj rd].
+  destruct r; cbv beta iota; [replace (Z.of_N j + 1) with (Z.of_N (j + 1)) by lia|].
+  all: match goal with |- context [scan_w (skipn ?ii ?ss) ?ii ?j0] => outer_shape ss ii j0; destruct (scan_w (skipn ii ss) ii j0) as [[i' j']|] end;
+       cbv beta iota; cbn [wi bj rd]; try reflexivity.
+Qed.
+
+(* bitmapContainerIter.Next = BitmapIter.Next on the container's words: the model's inner_next on a bitmap container *)
+Theorem code_bitmapContainerIter_Next : forall fuel b it, (65 < fuel)%nat -> (length (words b) - wi it < fuel)%nat ->
+  g_bitmapContainerIter_Next fuel (of_iter (words b) it) =
+  Ret (match inner_next (Bmp b) (IBmp it) with
+       | Some (IBmp it') => (of_iter (words b) it', true)
+       | _ => (of_iter (words b) (end_iter (words b) it), false)
+       end).
+Proof.
+  intros fuel b it H1 H2. cbv beta iota zeta delta [g_bitmapContainerIter_Next]. rewrite code_BitmapIter_Next by assumption.
+  cbn [inner_next]. destruct (bnext (words b) it); reflexivity.
+Qed.
